@@ -96,8 +96,20 @@ let packer_case line =
         (int_of_n (rd32 (drop (fl - 4) f))) (List.length ct) fl (fmt_blobs bs)) packs in
     (if parts = [] then "none" else String.concat " ; " parts) ^ (if spec = packs then " | spec=1" else " | spec=0")
 
+let describes_case line =
+  let t = toks line in
+  let size = ni t in
+  let bs = rd_blobs t in
+  if describes_b bs (n_of_int size) then "1" else "0"
+
+let layout_case line =
+  let t = toks line in
+  let size = ni t in
+  let bs = rd_blobs t in
+  if layout_b bs (n_of_int size) then "1" else "0"
+
 let () =
   main_loop (match mode with
     | "codec" -> codec_case | "frombin" -> frombin_case | "fromfile" -> fromfile_case
-    | "packer" -> packer_case
+    | "packer" -> packer_case | "describes" -> describes_case | "layout" -> layout_case
     | _ -> failwith "mode")
